@@ -45,6 +45,13 @@ from ..fakes import ToyNoise
 
 ID = "C16"
 PROP_MODULES = ["WV.Props.C16"]
+# [deepMgr] translation validation of the Manager / TrafficTimer method bodies (tools/extract.py::extract_pyir_mgr ->
+# WV/Gen/PyIRMgr.lean): part of the check as soon as the module is installed (agents/deepMgr_integration.md)
+import os as _os_mgr
+for _m_mgr in ("PyIRMgr_C17", "PyIRMgr_C16"):
+    if _os_mgr.path.exists(_os_mgr.path.join(_os_mgr.path.dirname(_os_mgr.path.dirname(_os_mgr.path.dirname(
+            _os_mgr.path.abspath(__file__)))), "lean", "WV", "Props", _m_mgr + ".lean")):
+        PROP_MODULES.append("WV.Props." + _m_mgr)
 TRUSTED = ["Twisted DelayedCall/Clock semantics (a call runs once now >= its time; delay() adds to the deadline)",
            "os.urandom(4) returns 4 arbitrary bytes (an input of the case; NOT assumed fresh: the theorems that need "
            "'the id drawn is not outstanding' carry it as the hypothesis freshNext, the harness runs the real code at "
